@@ -1,6 +1,7 @@
 package crlrepository
 
 import (
+	"encoding/asn1"
 	"crypto/x509"
 	"crypto/x509/pkix"
 	"hash"
@@ -15,6 +16,8 @@ import (
 	"github.com/gr33nbl00d/caddy-revocation-validator/crl/crlstore"
 	"github.com/gr33nbl00d/caddy-revocation-validator/zz_verif/verifrt"
 )
+
+var oidReasonCode = asn1.ObjectIdentifier{2, 5, 29, 21}
 
 const modRoot = "github.com/gr33nbl00d/caddy-revocation-validator"
 
@@ -69,7 +72,10 @@ func (stubReader) ReadCRL(p crlreader.CRLProcessor, path string) (*crlreader.CRL
 			return nil, verifrt.NewError("truncated CRL")
 		}
 		// the entry's revocation date is arbitrary (past, now, in the future of the server clock)
-		e := &crlreader.CRLEntry{Issuer: issuer, RevokedCertificate: &pkix.RevokedCertificate{SerialNumber: s, RevocationTime: verifrt.TimeAt(verifrt.NondetInt64("revocationDate"))}}
+		// ... and so is its reasonCode entry extension (keyCompromise, certificateHold, removeFromCRL, garbage ...):
+		// in a complete CRL a listed serial is revoked whatever the entry says besides
+		e := &crlreader.CRLEntry{Issuer: issuer, RevokedCertificate: &pkix.RevokedCertificate{SerialNumber: s, RevocationTime: verifrt.TimeAt(verifrt.NondetInt64("revocationDate")),
+			Extensions: []pkix.Extension{{Id: oidReasonCode, Value: verifrt.NondetBytes("reasonCode", 3)}}}}
 		if err := p.InsertRevokedCertificate(e); err != nil {
 			return nil, err
 		}
